@@ -19,6 +19,9 @@ Conventions
 -/
 import HtmlVerif.Generated.Src
 import HtmlVerif.Lemmas.SrcC11
+import HtmlVerif.Props.SrcAttrs
+import HtmlVerif.Props.SrcC09
+import HtmlVerif.Props.SrcC10
 
 set_option linter.unusedVariables false
 set_option linter.unusedSimpArgs false
@@ -391,4 +394,112 @@ theorem src_hoist_head_contentC11 (h : HTMLDocument_hoist_head_contentC11_availa
           hoist_restC11
     · have hn' : (n == ['h', 't', 'm', 'l']) = false := by simpa [Doc.nHtml] using hn
       simp [hn', Doc.hoist, hn, embRes, embErr])
+
+/-! ### `_gen_html_tag_tree` with `_hoist_head_content`: the hypotheses discharged from the ties of the other areas -/
+
+/-- the globals of the C11 tie: the tables of `cfg`, and `HTMLDependency.as_html_tags` (not translated) answering `f` -/
+def globalsC11 (cfg : Cfg) (f : PVal → PVal → PVal → PyM PVal) : Globals := { globalsOf cfg with asHtmlTagsC11 := f }
+
+/-- `TagAttrDict.update` does not consult `asHtmlTagsC11`: its tie (`src_update`) holds for the globals of this file -/
+theorem updateTie_ofC11 (h : TagAttrDict_update_available = true) (h1 : normalize_attr_value_available = true)
+    (h2 : normalize_attr_name_available = true) (h3 : html_escape_available = true)
+    (h4 : HTML_add_available = true) (h5 : HTML_radd_available = true) (h6 : HTML_as_string_available = true)
+    (cfg : Cfg) (hsp : escText cfg [' '] = [' ']) (ht : keysPlain cfg.textTbl = true) (ha : keysPlain cfg.attrTbl = true)
+    (f : PVal → PVal → PVal → PyM PVal) : UpdateTieC11 (globalsC11 cfg f) cfg := by
+  intro cur args kw
+  have e : TagAttrDict_update (globalsC11 cfg f) (embAttrs cur) (.tuple (args.map embArgDict)) (embArgDict kw)
+      = TagAttrDict_update (globalsOf cfg) (embAttrs cur) (.tuple (args.map embArgDict)) (embArgDict kw) := rfl
+  rw [e]
+  exact src_update h h1 h2 h3 h4 h5 h6 cfg hsp ht ha cur args kw
+
+theorem genTree_isTagC11 (cfg : Cfg) (content : Nodes) (kw : List (Str × AttrArg)) (x : Node) (after : Nodes)
+    (h : Doc.genTree cfg content kw = .ok (x, after)) : x.isTag = true := by
+  have wrap : ∀ (b : Node) (c : Nodes), (match Doc.wrapHtml cfg b kw with
+      | .error e => (.error e : Except Err (Node × Nodes)) | .ok hh => .ok (hh, c)) = .ok (x, after) → x.isTag = true := by
+    intro b c hw
+    simp only [Doc.wrapHtml] at hw
+    cases hti : tagInitAttrs cfg [] kw with
+    | error e => rw [hti] at hw; simp at hw
+    | ok a => rw [hti] at hw; simp at hw; rw [← hw.1]; rfl
+  unfold Doc.genTree at h
+  split at h
+  · split at h
+    · rename_i n w a kids hn
+      cases hu : Doc.updateKw cfg a kw with
+      | error e => simp [hu] at h
+      | ok a' => simp [hu] at h; rw [← h.1]; rfl
+    · exact wrap _ _ h
+  · exact wrap _ _ h
+
+/-- `HTMLDocument._gen_html_tag_tree(lib_prefix, include_version)` as the source has it, **with** the call of
+    `_hoist_head_content` = `genHtmlTagTree` (`genTree`, then `hoist`), for every stored content, keyword arguments that do
+    not collide with parameter names, `lib_prefix` None or a string, any fuel that covers the nesting of the content and of
+    the tree handed to `_hoist_head_content`.  `hA`: what the untranslated `as_html_tags` answers (a parameter of `G`) is what
+    the model's `depTags` says, for the resolved dependencies of that tree. -/
+theorem src_gen_html_tag_tree_fullC11 (h : HTMLDocument_gen_html_tag_treeC11_available = true)
+    (hh : HTMLDocument_hoist_head_contentC11_available = true)
+    (hins : Tag_insertC11_available = true) (hext : Tag_extendC11_available = true) (happ : Tag_appendC11_available = true)
+    (hi : TagAttrDict_initC11_available = true) (hc : CalleesC11)
+    (ht1 : Tag_tagify_available = true) (ht2 : TagList_tagify_available = true)
+    (hd1 : Tag_get_dependencies_available = true) (hd2 : TagList_get_dependencies_available = true)
+    (hr : resolve_dependencies_available = true)
+    (G : Globals) (cfg : Cfg) (hU : UpdateTieC11 G cfg) (tv : Node → PVal) (htv : TvOk tv)
+    (content : Nodes) (kw : List (Str × AttrArg)) (hkw : kwAvoidsC11 reservedKw kw = true) (lp : Option Str) (iv : Bool)
+    (fuel : Nat) (hf : 2 * kidsDepth content + 4 ≤ fuel)
+    (hfx : ∀ x after, Doc.genTree cfg content kw = .ok (x, after) → 2 * nodeDepth x + 9 ≤ fuel)
+    (hA : ∀ x after, Doc.genTree cfg content kw = .ok (x, after) → ∀ d ∈ x.getDeps true,
+      G.asHtmlTagsC11 (embT tv d) (embLpC11 lp) (.bool iv)
+        = embRes (fun ns => tagListOf (embTs tv ns)) (Doc.depTags cfg lp iv d)) :
+    HTMLDocument_gen_html_tag_treeC11 G fuel (docObjC11 (embTs tv content) (embArgDict kw)) (embLpC11 lp) (.bool iv)
+      = embRes (fun p => embT tv p.1) (Doc.genHtmlTagTree cfg content kw lp iv) := by
+  obtain ⟨f, rfl⟩ : ∃ f, fuel = f + 2 := ⟨fuel - 2, by omega⟩
+  have hT : ∀ t : Node, t.isTag = true → 2 * nodeDepth t ≤ f + 1 →
+      Tag_tagify G (f + 1) (embT tv t) = .ok (embT tv (tagifyTag t)) :=
+    fun t htag hle => src_tagify_tag ht1 ht2 G tv htv t htag (f + 1) hle
+  rw [src_gen_html_tag_treeC11 h hi G cfg tv hU (f + 1) hT content kw hkw (by omega) (embLpC11 lp) (.bool iv)
+    (fun v => HTMLDocument_hoist_head_contentC11 G (f + 1) v (embLpC11 lp) (.bool iv)) (fun _ => rfl)]
+  unfold Doc.genHtmlTagTree
+  cases hg : Doc.genTree cfg content kw with
+  | error e => rfl
+  | ok p =>
+    obtain ⟨x, after⟩ := p
+    have htag := genTree_isTagC11 cfg content kw x after hg
+    cases x <;> simp [Node.isTag] at htag
+    rename_i n w a kids
+    have hfx' := hfx _ _ hg
+    have hD := src_get_dependencies_tag hd1 hd2 hr G tv (.tag n w a kids) rfl f (by omega) true
+    have := src_hoist_head_contentC11 hh hins hext happ hi hc G cfg tv hU f (by omega) n w a kids lp iv hD (hA _ _ hg)
+    simp only [this]
+    cases Doc.hoist cfg (.tag n w a kids) lp iv <;> rfl
+
+/-- the same for the tables as they are in the source right now (`cfgNow`, `src_tables_ok`: Props/SrcEscape.lean), the
+    objects' `tagify()` answering what the model says (`tvSpec`), and `as_html_tags` answering `f` -/
+theorem src_gen_html_tag_tree_nowC11 (h : HTMLDocument_gen_html_tag_treeC11_available = true)
+    (hh : HTMLDocument_hoist_head_contentC11_available = true)
+    (hins : Tag_insertC11_available = true) (hext : Tag_extendC11_available = true) (happ : Tag_appendC11_available = true)
+    (hi : TagAttrDict_initC11_available = true) (hc : CalleesC11)
+    (ht1 : Tag_tagify_available = true) (ht2 : TagList_tagify_available = true)
+    (hd1 : Tag_get_dependencies_available = true) (hd2 : TagList_get_dependencies_available = true)
+    (hr : resolve_dependencies_available = true)
+    (hu : TagAttrDict_update_available = true) (hu1 : normalize_attr_value_available = true)
+    (hu2 : normalize_attr_name_available = true) (hu3 : html_escape_available = true)
+    (hu4 : HTML_add_available = true) (hu5 : HTML_radd_available = true) (hu6 : HTML_as_string_available = true)
+    (f : PVal → PVal → PVal → PyM PVal)
+    (content : Nodes) (kw : List (Str × AttrArg)) (hkw : kwAvoidsC11 reservedKw kw = true) (lp : Option Str) (iv : Bool)
+    (fuel : Nat) (hf : 2 * kidsDepth content + 4 ≤ fuel)
+    (hfx : ∀ x after, Doc.genTree cfgNow content kw = .ok (x, after) → 2 * nodeDepth x + 9 ≤ fuel)
+    (hA : ∀ x after, Doc.genTree cfgNow content kw = .ok (x, after) → ∀ d ∈ x.getDeps true,
+      f (embT tvSpec d) (embLpC11 lp) (.bool iv)
+        = embRes (fun ns => tagListOf (embTs tvSpec ns)) (Doc.depTags cfgNow lp iv d)) :
+    HTMLDocument_gen_html_tag_treeC11 (globalsC11 cfgNow f) fuel (docObjC11 (embTs tvSpec content) (embArgDict kw))
+        (embLpC11 lp) (.bool iv)
+      = embRes (fun p => embT tvSpec p.1) (Doc.genHtmlTagTree cfgNow content kw lp iv) :=
+  src_gen_html_tag_tree_fullC11 h hh hins hext happ hi hc ht1 ht2 hd1 hd2 hr (globalsC11 cfgNow f) cfgNow
+    (updateTie_ofC11 hu hu1 hu2 hu3 hu4 hu5 hu6 cfgNow src_tables_ok.2.2 src_tables_ok.1 src_tables_ok.2.1 f)
+    tvSpec tvSpec_ok content kw hkw lp iv fuel hf hfx hA
+
+/-- the guard on the keyword arguments is satisfiable by a non-trivial instance, and excludes the parameter names -/
+example : kwAvoidsC11 reservedKw [("lang".toList, .str "en".toList), ("class_".toList, .html "a".toList)] = true := by decide
+example : kwAvoidsC11 reservedKw [("_add_ws".toList, .boolF)] = false := by decide
+
 end HtmlVerif.SrcTie
